@@ -203,7 +203,7 @@ def build(clean=False, timeout=1500):
 def forbidden_words():
     hits = []
     for f in glob.glob(os.path.join(COQ, '**', '*.v'), recursive=True):
-        if os.sep + '.work' + os.sep in f:
+        if os.sep + '.work' + os.sep in f or os.sep + 'wip_' in f:
             continue
         for n, line in enumerate(open(f), 1):
             code = re.sub(r'\(\*.*?\*\)', '', line)
@@ -464,9 +464,12 @@ def run_property(prop, tier='quick', seed=0, replay=None):
     # ---- (1) proofs
     ok_build, build_log = build()
     words = forbidden_words()
-    pr = prove(pid) if ok_build else {'ok': False, 'theorems': [], 'discharged': [], 'axioms': {},
-                                      'log': build_log, 'file': 'coq/Props/%s.v' % pid}
-    proof_broken = (not ok_build) or (not pr['ok']) or bool(words)
+    # make -k may fail on a file that belongs to another property; what matters here is that
+    # Props/<pid>.v recompiles against freshly built dependencies (coqc checks their consistency)
+    pr = prove(pid)
+    if not pr['ok'] and not ok_build:
+        pr['log'] = (pr['log'] + '\n--- make ---\n' + build_log)[-3000:]
+    proof_broken = (not pr['ok']) or bool(words)
 
     # ---- (2) correspondence
     rng = random.Random(seed)
@@ -560,7 +563,7 @@ def run_property(prop, tier='quick', seed=0, replay=None):
                        'obligation': 'coq/Props/%s.v: %s' % (
                            pid, 'forbidden words: %s' % words if words else
                            'theorems not closed: %s' % sorted(set(pr['theorems']) - set(pr['discharged']))
-                           if ok_build and pr['theorems'] else 'build failed'),
+                           if pr['theorems'] else 'Props file did not compile'),
                        'log': pr['log'][-1500:]}, nofail=True)
 
     # known findings: print one line per listed open finding that was hit (or whose witness fails)
